@@ -29,6 +29,10 @@ CHECKS = {
    text="TLC checks Retry (attempt loop, classification, back-off sequence, cancellation at every instant, liveness) for MaxRetries 0..3 and without a retry option, and RetryClamp over the boundary grid (range, idempotence, valid points untouched); every leaf of the Retry state graph (outcome sequence x cancel instant) is replayed through the real retry loop with the error texts the real Streamable and legacy SSE clients produce for each outcome kind (learned end to end from a scripted server/dialer); a sample runs end to end through the real clients; the clamp grid is compared with the real Validate() and the installed client configuration; run logs are validated by TLC against TraceRetry with silent loop steps.",
    note="Trusted: TLC, the scripted server/dialer, wall-clock LOWER bounds on waits (upper bounds generous: cap + 250 ms, prompt cancel < 200 ms against a 600 ms wait). Outcome alphabet: success, JSON-RPC error, 6 non-transient 4xx, 408/409/429, 6 5xx, refused, reset, read timeout, EOF, two non-network errors. http.Client.Timeout-style errors are outside the alphabet.",
    technique="TLA+ model checking (TLC) + replay of all model leaves into the real retry loop + end-to-end scripted-fault runs + TLC trace validation"),
+ "C15": dict(level="model_checking", design="DESIGN.md §5 C15",
+   text="TLC checks Middleware.tla (stack machine of the chain) for every chain up to length 4 over {pass, modReq, modRes, short, fail}: exactly-once, onion order, nothing inside a stopper runs, the stopper's value is the answer, termination; every finished state is a chain with its expected event sequence and answer, built from instrumented middlewares on real Streamable-HTTP (JSON and SSE answers) and legacy SSE servers in both option forms with overlapped requests; recorded per-request event sequences, answers, per-stage context/session and the absence of notifications in the chain are compared with the model; the event logs are validated by TLC against TraceMiddleware.",
+   note="Trusted: TLC, the instrumented middlewares/handler (harness code with fixed behaviours), the raw peer. Only tools/call requests are driven through non-pass behaviours (initialize and list requests pass through untouched).",
+   technique="TLA+ model checking (TLC) + exhaustive chain replay on real servers + TLC trace validation"),
 }
 NA = {
  "C20": "data-race freedom is a statement about individual memory accesses under the Go memory model; an abstract state-machine specification has no notion of them (see DESIGN.md §6)",
